@@ -471,7 +471,7 @@ func (p *proc) wait(hangS int) (hung bool) {
 			return true
 		}
 		b, _ := os.ReadFile(p.hb)
-		if s := string(b); s != p.lastHB && s != "" {
+		if s := strings.TrimSpace(string(b)); s != p.lastHB && s != "" {
 			p.lastHB, p.lastChg = s, time.Now()
 		} else if time.Since(p.lastChg) > time.Duration(hangS)*time.Second {
 			p.kill()
